@@ -87,7 +87,16 @@ static uint64_t job(uint64_t seed, long round, int tid, const std::string& dir, 
     for (size_t i = 0; i < shared.size(); ++i) {
         if (!r.chance(70)) continue;
         Outcome oc; std::unique_ptr<ezc3d::c3d> s; VF_TRY(oc, s.reset(new ezc3d::c3d(shared[i]))); MIX(classHash(oc)); MIX(i);
-        if (s) { Snap sn = take(*s); MIX(hashSnap(sn)); }
+        if (s) { Snap sn = take(*s); MIX(hashSnap(sn));
+            // ... and save what was loaded to this thread's own path (header events, padded strings and byte parameters only exist in loaded objects)
+            if (r.chance(60)) { std::string ps = dir + "/shr_" + tag + "_" + std::to_string(round) + ".t" + std::to_string(tid); Outcome wo; VF_TRY(wo, s->write(ps)); MIX(classHash(wo)); MIX(fnv(readFileBytes(ps))); unlink(ps.c_str()); } }
+    }
+    // now and then a recording of more than 256 KiB (library-side buffering strategies may change with size)
+    if (r.chance(20)) {
+        ezc3d::c3d big; { Param p("RATE"); p.set(std::vector<float>(1, 200.f)); big.parameter("POINT", p); }
+        int bp = r.range(30, 45); for (int i = 0; i < bp; ++i) big.point("B" + std::to_string(i));
+        for (int f = 0; f < 520; ++f) { ezc3d::DataNS::Frame fr; ezc3d::DataNS::Points3dNS::Points pts; for (int i = 0; i < bp; ++i) { ezc3d::DataNS::Points3dNS::Point p; p.name("B" + std::to_string(i)); p.x((float)(tid * 1000 + f)); p.y((float)i); p.z((float)r.range(-99, 99)); pts.point(p); } fr.add(pts); big.frame(fr); }
+        std::string pb = dir + "/big_" + tag + "_" + std::to_string(round) + ".t" + std::to_string(tid); Outcome wo; VF_TRY(wo, big.write(pb)); MIX(classHash(wo)); MIX(fnv(readFileBytes(pb))); unlink(pb.c_str());
     }
     // failing loads
     { Outcome oc; std::unique_ptr<ezc3d::c3d> s; VF_TRY(oc, s.reset(new ezc3d::c3d(dir + "/does_not_exist.c3d"))); MIX(classHash(oc)); }
